@@ -44,6 +44,9 @@ package varutil
 // -- and it ends only there: on leaving the loop the text read ends with that sequence, which is cut off
 //@   loop 4 exit hassuffix(cat(prev(value), sbyte(rinput(payload(reader))[rpos(reader) - 1])), eof)
 //@   loop 4 exit value == sub(cat(prev(value), sbyte(rinput(payload(reader))[rpos(reader) - 1])), 0, len(prev(value)) + 1 - len(eof))
+// -- the heredoc value is the body with blanks (space, tab) trimmed off its ends - line breaks stay
+//@   at_call strings.Trim requires $1 == " \t"
+//@   at_call strings.TrimSpace requires false
 
 // SplitArguments is ReadArguments over a reader of exactly the given string: there is one
 // splitter behind both entry points
